@@ -82,11 +82,19 @@ func RunOne(t *testing.T, cfg *Config, follow []Choice, strict bool) *RunResult 
 			rand.Seed(cfg.Seed)
 			uuid.SetRand(prngReader{rand.New(rand.NewSource(cfg.Seed))})
 			w = NewWorld(cfg, follow, strict)
+			curWorld = w
 			w.start = time.Now()
 			w.db = newSimStore(w)
 			w.or = newOracles()
 			sim := &Sim{w: w}
 			sim.st = w.newStack()
+			w.memStatus = func() int {
+				pl, err := sim.st.pipe.Get(context.Background(), PipelineID)
+				if err != nil {
+					return 0
+				}
+				return int(pl.GetStatus())
+			}
 			// group plan actions by client, preserving order
 			var names []string
 			byClient := map[string][]Action{}
